@@ -1,4 +1,5 @@
 import Proofs.Lemmas.CostSpec
+import Proofs.Lemmas.HeapCells
 import Proofs.Props.C15
 /-!
 # C16 — A PRISM object is a faithful, isolated snapshot of a fully specified System
@@ -594,6 +595,167 @@ theorem history_refines_spec (n : ℕ) (kT : ℝ) (ops : List (SOp ℝ)) :
   have h0 : absSys (World.init n kT : World ℝ).st (World.init n kT : World ℝ).sys = Sys.init n kT := by
     simp [absSys, World.init, SysH.init, Sys.init, Store.empty]
   rw [key ops _ (winv_init n kT) (potInj_init n kT) (potSymm_init n kT), h0]
+
+/-! ## the private objects of a PRISM object carry exactly its value-level state, for ever -/
+
+/-- the cells PRISM object `q` refers to are its own, and hold what its value-level state `q.core` (the state `cost` works
+with) says: `U.sigma`, `closure.sigma`, `closure.potential`, closure class and flag -/
+def CellsAgree (h : Store ℝ) (q : PrismH ℝ) : Prop :=
+  ∀ i j, i ≤ j → j < q.core.n →
+    q.potR i j ∈ q.owned ∧ q.cloR i j ∈ q.owned ∧
+    (∃ P, h.pot (q.potR i j) = some P ∧ P.sigma = some (q.core.potSigma i j)) ∧
+    (∃ C, h.clo (q.cloR i j) = some C ∧ C.sigma = some (q.core.cloSigma i j) ∧ C.potential = some (q.core.u i j) ∧
+      (C.kind, C.hc) = q.core.cloK i j)
+
+theorem eval_with_sigma (P : PotSpec ℝ) (x : Option ℝ) (σ r : ℝ) : PotSpec.eval { P with sigma := x } σ r = P.eval σ r := rfl
+
+/-- the per-pair fields of the value-level state `createPRISM` returns (no symmetry hypothesis needed for these) -/
+theorem createPRISM_fields (s : Sys ℝ) (p : Prism ℝ) (d : Dom ℝ) (hd : s.dom = some d) (h : s.createPRISM = .ok p) :
+    p.n = s.n ∧ s.check = true ∧ ∀ i j, i ≤ j →
+      p.cloSigma i j = (s.diam.sigma i j).getD 0 ∧
+      p.cloK i j = (s.clo i j).getD (.py, false) ∧
+      (∀ P, s.pot i j = some P →
+        p.potSigma i j = (match P.sigma with | some v => v | none => (s.diam.sigma i j).getD 0) ∧
+        p.u i j = tab d.length fun l => P.eval (p.potSigma i j) (d.r[l]!) / s.kT) := by
+  unfold Sys.createPRISM at h
+  split at h
+  · rename_i hc
+    rw [hd] at h
+    simp only at h
+    split at h
+    · cases h
+    · cases h
+      refine ⟨rfl, hc, ?_⟩
+      intro i j hij
+      simp only [loI_of_le hij, hiI_of_le hij, Lit_ofNat, Nat.cast_zero, true_and]
+      intro P hP
+      simp [hP] <;> (cases P.sigma <;> simp)
+  · cases h
+
+/-- **`createPRISM` leaves, for every pair, private potential / closure objects that agree with the value-level state it
+returns** (the object-level and the value-level descriptions of the same constructor coincide) -/
+theorem create_cells_agree (w : World ℝ) (hw : WInv w) (core : Prism ℝ) (d : Dom ℝ)
+    (hcore : (absSys w.st w.sys).createPRISM = .ok core) (hd : w.sys.dom = some d) :
+    ∃ q, (w.step .create).1.prisms = w.prisms ++ [q] ∧ q.core = core ∧ CellsAgree (w.step .create).1.st q := by
+  obtain ⟨hn, hchk, hf⟩ := createPRISM_fields (absSys w.st w.sys) core d hd hcore
+  simp only [World.step, hcore, hd]
+  refine ⟨_, rfl, rfl, ?_⟩
+  intro i j hij hj
+  have hj' : j < w.sys.n := by
+    have e : core.n = w.sys.n := hn
+    simpa [e] using hj
+  unfold Sys.check at hchk
+  simp only [Bool.and_eq_true] at hchk
+  obtain ⟨⟨⟨⟨⟨_, hpot⟩, hclo⟩, _⟩, _⟩, _⟩ := hchk
+  have hP := (tableFull_iff _ _).mp hpot i j (lt_of_le_of_lt hij hj') hj' hij
+  have hC := (tableFull_iff _ _).mp hclo i j (lt_of_le_of_lt hij hj') hj' hij
+  obtain ⟨P, hPe⟩ : ∃ P, (w.sys.potR i j).bind w.st.pot = some P := Option.ne_none_iff_exists'.mp hP
+  obtain ⟨C, hCe⟩ : ∃ C, (w.sys.cloR i j).bind w.st.clo = some C := by
+    cases e : (w.sys.cloR i j).bind w.st.clo with
+    | none =>
+      exfalso; apply hC
+      show Option.map _ ((w.sys.cloR i j).bind w.st.clo) = none
+      rw [e]; rfl
+    | some C => exact ⟨C, rfl⟩
+  obtain ⟨f1, f2, f3⟩ := hf i j hij
+  obtain ⟨g1, g2⟩ := f3 P hPe
+  obtain ⟨c1, c2, c3, c4⟩ := copyFold_cells w.sys d (upperPairs w.sys.n) ⟨w.st, fun _ _ => 0, fun _ _ => 0, []⟩
+    (upperPairs_nodup _) (fun p hp => ((mem_upperPairs _ p.1 p.2).mp hp).1) hw.sysPot hw.sysClo (i, j)
+    ((mem_upperPairs _ i j).mpr ⟨hij, hj'⟩)
+  simp only at c1 c2 c3 c4
+  have hsig : (potOf w.sys w.st i j).sigma = some (core.potSigma i j) := by
+    simp only [potOf, hPe, Option.getD_some, Lit_ofNat, Nat.cast_zero]
+    rw [g1]; simp only [absSys]
+    cases P.sigma <;> rfl
+  refine ⟨c3, c4, ⟨_, c1, hsig⟩, ⟨_, c2, ?_, ?_, ?_⟩⟩
+  · simp only [cloOf, Lit_ofNat, Nat.cast_zero]
+    rw [f1]; rfl
+  · simp only [cloOf, hPe, Option.getD_some, Lit_ofNat, Nat.cast_zero]
+    rw [g2, g1]
+    simp only [absSys]
+    congr 1
+  · simp only [cloOf, hCe, Option.getD_some]
+    rw [f2]
+    show _ = (Option.map (fun c : CloObj ℝ => (c.kind, c.hc)) ((w.sys.cloR i j).bind w.st.clo)).getD (CKind.py, false)
+    rw [hCe]; rfl
+
+/-- one operation keeps the agreement for every PRISM object that exists, and establishes it for a new one -/
+theorem prisms_agree_step (w : World ℝ) (hw : WInv w) (ha : ∀ q ∈ w.prisms, CellsAgree w.st q) (op : SOp ℝ) :
+    ∀ q ∈ (w.step op).1.prisms, CellsAgree (w.step op).1.st q := by
+  obtain ⟨_, _, h3⟩ := step_isolated w hw op
+  have keep : ∀ q ∈ w.prisms, CellsAgree (w.step op).1.st q := by
+    intro q hq i j hij hj
+    obtain ⟨a1, a2, ⟨P, a3, a4⟩, ⟨C, a5, a6⟩⟩ := ha q hq i j hij hj
+    refine ⟨a1, a2, ⟨P, ?_, a4⟩, ⟨C, ?_, a6⟩⟩
+    · rw [(h3 q hq _ a1).1]; exact a3
+    · rw [(h3 q hq _ a2).2]; exact a5
+  have same : (w.step op).1.prisms = w.prisms → ∀ q ∈ (w.step op).1.prisms, CellsAgree (w.step op).1.st q := by
+    intro e q hq; rw [e] at hq; exact keep q hq
+  cases op with
+  | setKT v => exact same rfl
+  | setDom d => exact same rfl
+  | setDens ts v => exact same rfl
+  | setDiam ts v => exact same rfl
+  | setOm i j O => exact same rfl
+  | setPot i j P => cases P <;> exact same rfl
+  | setClo i j C =>
+    cases C with
+    | none => exact same rfl
+    | some C => obtain ⟨k, hc⟩ := C; exact same rfl
+  | editPotSigma i j v =>
+    apply same
+    simp only [World.step]
+    split
+    · rfl
+    · split <;> rfl
+  | create =>
+    cases hcore : (absSys w.st w.sys).createPRISM with
+    | error e => apply same; simp only [World.step, hcore]
+    | ok core =>
+      cases hd : w.sys.dom with
+      | none => apply same; simp only [World.step, hcore, hd]
+      | some d =>
+        obtain ⟨q0, e1, _, e3⟩ := create_cells_agree w hw core d hcore hd
+        intro q hq
+        rw [e1] at hq
+        rcases List.mem_append.mp hq with hq' | hq'
+        · exact keep q hq'
+        · rw [List.mem_singleton.mp hq']; exact e3
+
+/-- **every PRISM object, at every moment of every history, holds in its private objects exactly what its value-level state
+says** — so what an existing PRISM object computes (its `cost` uses `closure.sigma`, `closure.potential`, `U.sigma` of these
+objects) can never change through later operations on the System -/
+theorem prism_objects_always_agree (n : ℕ) (kT : ℝ) (ops : List (SOp ℝ)) :
+    ∀ q ∈ ((World.init n kT).run ops).prisms, CellsAgree ((World.init n kT).run ops).st q := by
+  have gen : ∀ (ops : List (SOp ℝ)) (w : World ℝ), WInv w → (∀ q ∈ w.prisms, CellsAgree w.st q) →
+      ∀ q ∈ (w.run ops).prisms, CellsAgree (w.run ops).st q := by
+    intro ops
+    induction ops with
+    | nil => intro w _ ha; exact ha
+    | cons op ops ih =>
+      intro w hw ha
+      exact ih (w.step op).1 (step_isolated w hw op).1 (prisms_agree_step w hw ha op)
+  exact gen ops _ (winv_init n kT) (fun q hq => by simp [World.init] at hq)
+
+/-- a complete one-component System whose potential and closure objects are cells 0 and 1 -/
+noncomputable def exWorld : World ℝ :=
+  ⟨⟨2, upd (fun _ => none) 0 (some ⟨.hs, #[1000000], none⟩), upd (fun _ => none) 1 (some ⟨.py, true, none, none⟩)⟩,
+   ⟨1, 1, some ⟨2, 1, 1⟩, ⟨1, fun _ => some 1, 1, fun _ _ => 1, fun _ _ => 1⟩, ⟨1, fun _ => some 1, fun _ => some 1, fun _ _ => some 1⟩,
+    fun _ _ => some 0, fun _ _ => some 1, fun _ _ => some ⟨.single, 1, #[]⟩⟩, []⟩
+
+/-- non-vacuity: the premises of `create_cells_agree` are satisfiable, so a PRISM object that `CellsAgree` speaks about exists -/
+example : ∃ q, (exWorld.step .create).1.prisms = [q] ∧ CellsAgree (exWorld.step .create).1.st q := by
+  have hw : WInv exWorld := by
+    refine ⟨?_, ?_, ?_⟩
+    · intro i j r h; simp [exWorld] at h; subst h; simp [exWorld]
+    · intro i j r h; simp [exWorld] at h; subst h; simp [exWorld]
+    · intro q hq; simp [exWorld] at hq
+  have hc : (absSys exWorld.st exWorld.sys).check = true := by
+    rw [check_iff_complete]
+    simp [absSys, exWorld, upd]
+  obtain ⟨core, hcore⟩ := (createPRISM_error_iff _).2 hc
+  obtain ⟨q, e1, _, e3⟩ := create_cells_agree exWorld hw core ⟨2, 1, 1⟩ hcore rfl
+  exact ⟨q, by simpa [exWorld] using e1, e3⟩
 
 /-- negation witness for the aliased variant (iterating the caller's `sys.potential` in `PRISM.__init__`):
 it changes the System's own potential object -/
